@@ -36,3 +36,11 @@ func init() {
 			"\t\tif !selectedUpdate {\n\t\t\ttx.Statement.Selects = append(tx.Statement.Selects, \"*\")\n\t\t}", "\t\ttx.Statement.Selects = append(tx.Statement.Selects, \"*\")"}}},
 	)
 }
+
+func init() {
+	addMutants(
+		Mutant{Name: "c10-omitted-column-passes-filter", Property: "C10", Rule: "C10.emit", Edits: []Edit{{"callbacks/helper.go",
+			"\t\tif v, ok := selectColumns[k]; (ok && v) || (!ok && !restricted) {\n\t\t\tvalues.Columns = append(values.Columns, clause.Column{Name: k})", "\t\tif v, ok := selectColumns[k]; ok || !restricted || v {\n\t\t\tvalues.Columns = append(values.Columns, clause.Column{Name: k})"}},
+			Note: "an entry that is present with value false (Omit / permission tag) now enables the emission"},
+	)
+}
